@@ -593,6 +593,9 @@ package table
 // eBGP prepend is that of the session's local AS, once
 //@   at-call path.RemovePrivateAS( requires !called(PrependAsn)
 //@   at-call path.PrependAsn(info.LocalAS requires arg1 == info.LocalAS && arg2 == 1
+// "to route-reflector clients ORIGINATOR_ID and CLUSTER_LIST added per RFC 4456": the local cluster-id is put in
+// FRONT of the list (RFC 4456 8: "prepend the local CLUSTER_ID"), whether the route had a list or not
+//@   at-call bgp.NewPathAttributeClusterList( requires len(arg0) >= 1 && arg0[0] == clusterID
 //@   at-return requires old(info.RouteServerClient) ==> ret0 == original
 //@   at-return requires !old(info.RouteServerClient) ==> ret0 != nil && fresh(ret0)
 
